@@ -16,7 +16,7 @@ let () = iter_lines (fun line ->
     let ops = ref [] and universe = ref [] and probes = ref [] in
     let note c = if not (Stdlib.List.mem c !universe) then universe := !universe @ [c] in
     let rec col = function
-      | _t :: s :: a :: c :: tl -> ({ c_code = z_of_string c; c_size = z_of_string s; c_align = z_of_string a }, c, tl)
+      | t :: s :: a :: c :: tl -> ({ c_code = z_of_string c; c_size = z_of_string s; c_align = z_of_string a }, (c, int_of_string t), tl)
       | _ -> failwith "col"
     and go = function
       | [] -> ()
@@ -34,10 +34,10 @@ let () = iter_lines (fun line ->
     in
     (try
       go rest;
-      Stdlib.List.iter (fun (_, cs) -> Stdlib.List.iter note cs) !ops;
+      Stdlib.List.iter (fun (_, cs) -> Stdlib.List.iter (fun (c, _) -> note c) cs) !ops;
       Stdlib.List.iter note !probes;
       let st = ref (init keepb) in
-      let added = ref [] in
+      let added = ref [] and groups = ref [] and npos = ref 0 in
       let verts = vertices lz in
       let buf = Buffer.create 4096 in
       let first = ref true in
@@ -45,7 +45,13 @@ let () = iter_lines (fun line ->
         let r = add lz !st cols in
         let status = (match r with Added _ -> "A" | TooMany -> "T" | Refused -> "R" | OutOfFuel -> "FUEL" | AssertFails -> "ASSERT") in
         st := after !st r;
-        if status = "A" then added := !added @ codes;
+        if status = "A" then begin
+          added := !added @ (Stdlib.List.map fst codes);
+          (* the group of this FuncRecord, restricted to the instrumented item types 10..13, by column position *)
+          let g = ref [] in
+          Stdlib.List.iter (fun (_, t) -> (if t >= 10 && t <= 13 then g := !g @ [nat_of_int !npos]); incr npos) codes;
+          groups := !groups @ [!g]
+        end;
         if not !first then Buffer.add_string buf " ; "; first := false;
         let s = !st in
         Buffer.add_string buf (Printf.sprintf "%s %s %s %s %d" status (zs s.codeParam) (zs s.totalSize) (zs s.alignment) (Stdlib.List.length s.columns));
@@ -60,7 +66,17 @@ let () = iter_lines (fun line ->
         Stdlib.List.iter (fun v -> let a = s.addends v in
           if zs a <> "0" then Buffer.add_string buf (Printf.sprintf " %s:%s" (zs v) (zs a))) verts
       ) !ops;
-      Buffer.add_string buf " ; raw ok";
+      Buffer.add_string buf " ; raw ok ; ev n:";
+      let show t = Stdlib.List.iter (fun e -> match e with
+        | RawLife.Ctor c -> Buffer.add_string buf (Printf.sprintf " C%d" (int_of_nat c))
+        | RawLife.Dtor c -> Buffer.add_string buf (Printf.sprintf " D%d" (int_of_nat c))) t in
+      let (t, _) = RawLife.create_raw None [] !groups in
+      show t; show (RawLife.destroy_raw !groups);
+      let cnt = Stdlib.List.length (Stdlib.List.concat !groups) in
+      for k = 0 to cnt - 1 do
+        Buffer.add_string buf (Printf.sprintf " | %d:" k);
+        let (t, _) = RawLife.create_raw (Some (nat_of_int k)) [] !groups in show t
+      done;
       print_endline (Buffer.contents buf)
     with Failure m -> print_endline ("?" ^ m))
   | _ -> print_endline "?")
